@@ -133,6 +133,7 @@ PROPS = {
         run_fn="run_sqcase",
         release_too=True,
         theorems=["C04_sq_exactly_once_unmodified", "C04_sq_every_add_accounted",
+                  "C04_sq_panicked_never_published",
                   "C04_sq_never_overwrites_pending", "C04_sq_drained_means_all_delivered"],
         rule="one splitmix64 stream per case: submission queue of 1..4 entries on the simulated kernel with the "
              "counters starting at boundary values (0, 2^31-1.., 2^32-k) or random, optionally pre-filled, 2..3 real "
